@@ -112,6 +112,8 @@ def run(chk: Check, ctx: Any) -> None:
         "are legal there). (R6) the multi-line string printer indents every line by the same prefix, which is what the reader's least-indentation "
         "dedent removes. Not decided: value-dependent dedent arithmetic (strings whose own lines all start with blanks, trailing newline) and "
         "fixed-point normalisation of odd spellings."
+        " (R7, interpreter-based) printers and readers are evaluated on a table of values built from the character classes they distinguish, in three printing "
+        "contexts and several depths."
     )
     chk.rule("C04-R1", "escape tables: printer pair a->b has reader pair b->a; the reader's escape lead-in ('\\\\') is escaped by the printer")
     chk.rule("C04-R2", "a hole printed between quote characters q is passed through the escape for q")
